@@ -112,7 +112,7 @@ class Env:
 # --------------------------------------------------------------------------- statements
 def gen_spec(rng):
     S = lambda: rng.choice(SYMBOLIC)  # noqa
-    k = rng.choice(["select", "select", "join", "subq", "union", "insert", "insert_select", "update", "delete", "ddl_create", "ddl_index", "ddl_drop", "create_all", "insertmany_sub", "insertmany_sub", "insertmany_plain"])
+    k = rng.choice(["select", "select", "join", "subq", "union", "insert", "insert_select", "update", "delete", "ddl_create", "ddl_index", "ddl_drop", "ddl_ctas", "ddl_ctas", "ddl_view", "create_all", "insertmany_sub", "insertmany_sub", "insertmany_plain"])
     sp = {"kind": k, "s1": S(), "s2": S(), "v": rng.randint(100, 900), "w": rng.randint(1, 4)}
     if k.startswith("insertmany"):
         n = rng.randint(2, 5)
@@ -155,6 +155,14 @@ def build(env, sp, tr):
         return t1.update().values(x=t1.c.x + v).where(t1.c.id.in_(sa.select(u2.c.tid).where(u2.c.id <= w)))
     if k == "delete":
         return t1.delete().where(t1.c.id.in_(sa.select(u2.c.tid).where(u2.c.id <= w)))
+    if k in ("ddl_ctas", "ddl_view"):
+        # DDL with an embedded SELECT: target in s1, source tables in s2 (and s1)
+        inner = sa.select(t2.c.id, t2.c.x).where(t2.c.x > v)
+        if w % 2:
+            u1 = env.table("u", tr(sp["s1"]))
+            inner = sa.select(t2.c.id, u1.c.tid.label("x")).select_from(t2.join(u1, u1.c.id == t2.c.id)).where(t2.c.x > v)
+        cls = sa.schema.CreateTableAs if k == "ddl_ctas" else sa.schema.CreateView
+        return cls(inner, "w", schema=tr(sp["s1"]))
     wt = env.table("w", tr(sp["s1"]))
     if k == "ddl_create":
         return sa.schema.CreateTable(wt)
@@ -382,6 +390,9 @@ def check_history(ctx, env, specs, hist, corr, record=True):
             # the direct construct itself is not executable (e.g. CREATE of an existing table): compare outcomes only
             if warm["status"].split()[0] != ref["status"].split()[0] and warm["status"] != ref["status"]:
                 viol("outcome-differs", "translated %s (%s) vs direct %s (%s)" % (warm["status"], warm.get("msg"), ref["status"], ref.get("msg")))
+            elif norm_list(warm["sql"]) != norm_list(ref["sql"]):
+                # both were rejected by the database, but not the same statement was sent
+                viol("sql-differs", "map %r: SQL %r vs direct construct %r (both rejected by SQLite)" % (m, warm["sql"], ref["sql"]))
             if record:
                 ctx.count("direct-raises")
             continue
@@ -419,7 +430,12 @@ def check_history(ctx, env, specs, hist, corr, record=True):
                     impl.append("multi")
                 else:
                     e = [v for k, v in ERRMAP if k in (w.get("msg") or "")]
-                    impl.append(e[0] if e else w["status"])
+                    if e:
+                        impl.append(e[0])
+                    elif len(w["sql"]) == 1:
+                        impl.append("ok " + E(w["sql"][0]))  # sent, then rejected by the database
+                    else:
+                        impl.append(w["status"])
             if "multi" not in impl:
                 # DDL is compiled afresh on every execution (never cached): give each DDL step its own statement id
                 fields = list(stmt_fields)
@@ -480,7 +496,7 @@ def adversarial(ctx, env):
 def run(ctx, deep=False):
     ctx.rule = (
         "histories (length 1..8) over pools of 1..3 generated statements (select/join/subquery/union/insert/insert-from-select/update/delete, "
-        "CreateTable/CreateIndex/DropTable/create_all) whose tables live in symbolic schemas {None,a,b,c,Up}; maps to {s1,s2,s3,main,None,Up,order,identity}, "
+        "CreateTable/CreateIndex/DropTable/create_all, CreateTableAs / CreateView with an embedded SELECT over other translated schemas) whose tables live in symbolic schemas {None,a,b,c,Up}; maps to {s1,s2,s3,main,None,Up,order,identity}, "
         "None keys, empty/None maps; 85% of histories keep the presence of the None key constant, 15% vary it; a case = one history; non-trivial = at least one non-empty map"
     )
     ctx.trusted += [
